@@ -68,3 +68,14 @@ claim("C16", "other",
       "Absence of nondeterminism sources on the whole call graph rooted at Search::search and bench::bench: resolved-callee deny-list (clock, OS randomness, RandomState, env, threads, files, pointer-to-integer casts) with the confirmed instances frozen by (caller, callee) and confined to the info line or to comparisons against SearchLimits fields; only order-independent methods on hash containers and an identity-hashed cache; constant Zobrist seed and source-free OnceLock initialisers; no mutable statics but the cache, no thread-locals, no shared cells but the running flag; fresh Info per search; cache empty at start and cleared between bench positions; cache untouched by the input thread. What a repeated-run test can only sample, this excludes for every schedule and load.",
       "assumes std functions outside the deny-list are deterministic and codegen is deterministic.",
       "static analysis: call-graph effect scan (deny-list of resolved callees) + who-may-access statics over rustc MIR", "DESIGN.md section 3 C16")
+
+
+claim("C11", "other",
+      "Structural features that make alpha-beta / PVS / ordering value-preserving and that the statement uses to define the reference game: the move orderer is a permutation of its input and ordering data reach only score comparisons; recursive calls use (-beta,-alpha) or (-alpha-1,-alpha) at depth-1 with negated results and re-search iff alpha < score < beta; cut-offs fire exactly on score >= beta; alpha rises only from a better score; mate/stalemate/fifty-move/repetition/check-extension/capture-only quiescence with stand-pat are as stated. Equality with the minimax value itself is value-level and not decided.",
+      "shape rules for fail-hard negamax with PVS; a differently formulated but equivalent search is reported as cannot-decide.",
+      "static analysis: symbolic slices of call arguments + decision-table extraction + index-arithmetic invariant over rustc MIR", "DESIGN.md section 3 C11")
+
+claim("C12", "other",
+      "Necessary bound discipline of the cache behind mate finding with caching on: an entry is used only on the edge where entry.depth >= remaining depth; Exact returned, Lower only raises alpha, Upper only lowers beta; stores carry (cutting score, Lower, cutting move) / (alpha, Upper iff not raised else Exact) / (alpha, Exact) at the root, keyed by the searched position; mate = MIN + ply, stalemate 0; only the three search sites write the cache. Whether mates are actually found is value-level and not decided.",
+      "relies on C13 (no aborted values stored) and C04/C05 (keys identify positions).",
+      "static analysis: decision-table extraction of the probe / store sites over rustc MIR", "DESIGN.md section 3 C12")
